@@ -778,6 +778,45 @@ theorem lineTest_not_documented :
   simp only [V3.dist2, V3.lerp, V3.add, V3.sub, V3.smul, V3.dot] at hlt
   nlinarith
 
+
+/-! ## path/tools.py: when a Bezier segment may be stored as a straight LINE_TO -/
+
+/-- `add_bezier4p` (rule: start == ctrl1 AND end == ctrl2): a cubic with BOTH handles retracted is its chord,
+    `P t = start + (3t² - 2t³) (end - start)` -/
+theorem cubic_both_handles_retracted_is_chord (p0 p3 : V3) (t : Rat) :
+    bez4Point p0 p0 p3 p3 t = V3.lerp p0 p3 (3 * t * t - 2 * t * t * t) := by
+  simp only [bez4Point, V3.lerp, V3.add, V3.sub, V3.smul, V3.mk.injEq]
+  refine ⟨?_, ?_, ?_⟩ <;> ring
+
+/-- the chord parameter stays inside `[0, 1]`: the polyline `start, end` reproduces such a cubic exactly -/
+theorem cubic_chord_parameter_in_range (t : Rat) (h0 : 0 ≤ t) (h1 : t ≤ 1) :
+    0 ≤ 3 * t * t - 2 * t * t * t ∧ 3 * t * t - 2 * t * t * t ≤ 1 := by
+  constructor
+  · have : 3 * t * t - 2 * t * t * t = t * t * (3 - 2 * t) := by ring
+    rw [this]; exact mul_nonneg (mul_nonneg h0 h0) (by linarith)
+  · have : 1 - (3 * t * t - 2 * t * t * t) = (1 - t) * (1 - t) * (1 + 2 * t) := by ring
+    have h : 0 ≤ (1 - t) * (1 - t) * (1 + 2 * t) := mul_nonneg (mul_nonneg (by linarith) (by linarith)) (by linarith)
+    linarith
+
+/-- ONE retracted handle does not make a cubic straight (so the rule must be AND, not OR): the curve
+    (0,0) (0,0) (1,1) (2,0) is 3/8 above its chord at t = 1/2 -/
+theorem cubic_one_handle_retracted_not_chord :
+    ∃ (p0 p2 p3 : V3) (t : Rat), 0 ≤ t ∧ t ≤ 1 ∧ ∀ lam : Rat, bez4Point p0 p0 p2 p3 t ≠ V3.lerp p0 p3 lam := by
+  refine ⟨⟨0, 0, 0⟩, ⟨1, 1, 0⟩, ⟨2, 0, 0⟩, 1/2, by norm_num, by norm_num, ?_⟩
+  intro lam h
+  have hy := congrArg V3.y h
+  simp only [bez4Point, V3.lerp, V3.add, V3.sub, V3.smul] at hy
+  norm_num at hy
+
+/-- `add_bezier3p` (rule: start == ctrl OR end == ctrl): a quadratic with its control point on an end point
+    is its chord -/
+theorem quadratic_retracted_is_chord (p0 p2 : V3) (t : Rat) :
+    bez3Point p0 p0 p2 t = V3.lerp p0 p2 (t * t) ∧
+    bez3Point p0 p2 p2 t = V3.lerp p0 p2 (2 * t * (1 - t) + t * t) := by
+  constructor <;>
+  · simp only [bez3Point, V3.lerp, V3.add, V3.sub, V3.smul, V3.mk.injEq]
+    refine ⟨?_, ?_, ?_⟩ <;> ring
+
 /-! ## the Python stack machine reproduces the recursion of the Cython twin -/
 
 private theorem stack_simulates_rec (C : Curve V) :
@@ -1151,6 +1190,26 @@ theorem tie_arc :
     countExpr = .ceil (.div (.var "angle") (.var "alpha")) ∧
     countHandler = (["ValueError", "ZeroDivisionError"], 1) := by
   refine ⟨?_, ?_, ?_, ?_, ?_, ?_⟩ <;> rfl
+
+/-- path/tools.py still stores a cubic as LINE_TO only if BOTH handles are retracted (`and`) and a quadratic if its
+    control point sits on either end (`or`), exact comparison (rel_tol 1e-15, abs_tol 0): the rules that
+    `cubic_both_handles_retracted_is_chord` / `quadratic_retracted_is_chord` justify and that
+    `cubic_one_handle_retracted_not_chord` shows cannot be weakened -/
+theorem tie_path_linear_rules :
+    pathLinearRules =
+      [("add_bezier4p.op", "And"),
+       ("add_bezier4p.operands", "start.isclose(ctrl1, rel_tol=rel_tol, abs_tol=abs_tol); end.isclose(ctrl2, rel_tol=rel_tol, abs_tol=abs_tol)"),
+       ("add_bezier4p.then", "path.line_to(end)"),
+       ("add_bezier4p.else", "path.curve4_to(end, ctrl1, ctrl2)"),
+       ("add_bezier4p.rel_tol", "1e-15"),
+       ("add_bezier4p.abs_tol", "0.0"),
+       ("add_bezier3p.op", "Or"),
+       ("add_bezier3p.operands", "start.isclose(ctrl, rel_tol=rel_tol, abs_tol=abs_tol); end.isclose(ctrl, rel_tol=rel_tol, abs_tol=abs_tol)"),
+       ("add_bezier3p.then", "path.line_to(end)"),
+       ("add_bezier3p.else", "path.curve3_to(end, ctrl)"),
+       ("add_bezier3p.rel_tol", "1e-15"),
+       ("add_bezier3p.abs_tol", "0.0")] := by
+  rfl
 
 end ties
 
